@@ -391,6 +391,9 @@ func (s *jsession) exec(op string) string {
 		if !reflect.DeepEqual(s.held, s.heldCopy) {
 			s.fail("C08 no-copy: the delivered slice changed before the release: %v -> %v", s.heldCopy, s.held)
 		}
+		if n := len(s.output); n > 0 {
+			s.fail("C08 no-copy: %d further slice(s) were written to the output while the delivered slice %v has not been released", n, s.heldCopy)
+		}
 		done := s.busy
 		s.busy = nil
 		s.st = "run"
